@@ -8,6 +8,70 @@ open Run
 
 let rec firstn k l = if k <= 0 then [] else match l with [] -> [] | x :: r -> x :: firstn (k - 1) r
 
+
+(* ---- untrusted generator of the k-lookahead certificate judged by ValidatorKC.check_kc: the LR(0) items of
+   CertGen.gen_cert with LALR(k) lookahead strings propagated to a fixpoint over the tables' own gotos ---- *)
+module SS = Set.Make (struct type t = int list let compare = Stdlib.compare end)
+
+let kc_limit = 60000   (* total number of lookahead strings above which the certificate is not built *)
+
+let gen_kcert (g : Cfg.grammar) enc (cert : Validator.cert) (k : int) =
+  let t = int_of_z g.Cfg.g_terms in
+  let rules = Stdlib.Array.of_list (Stdlib.List.map (fun r -> (int_of_z r.Cfg.r_lhs, Stdlib.List.map int_of_z r.Cfg.r_rhs)) g.Cfg.g_rules) in
+  let nr = Stdlib.Array.length rules in
+  let inputs = Stdlib.Array.of_list g.Cfg.g_inputs in
+  let ns = t + int_of_z g.Cfg.g_nonterms in
+  let arule r = if r < nr then snd rules.(r) else
+    let (nt, eoi) = inputs.(r - nr) in if eoi then [int_of_z nt; 0] else [int_of_z nt] in
+  let cat a b = firstn k (a @ b) in
+  let concat a b = SS.fold (fun x acc ->
+      if Stdlib.List.length x >= k then SS.add (firstn k x) acc else SS.fold (fun y acc -> SS.add (cat x y) acc) b acc) a SS.empty in
+  let fk = Stdlib.Array.make (ns + 1) SS.empty in
+  let sym x = if x < t then SS.singleton (firstn k [x]) else if x <= ns then fk.(x) else SS.empty in
+  let seq xs = Stdlib.List.fold_right (fun x acc -> concat (sym x) acc) xs (SS.singleton []) in
+  let changed = ref true in
+  while !changed do
+    changed := false;
+    Stdlib.Array.iter (fun (l, rhs) ->
+      if l >= 0 && l <= ns then begin
+        let s = SS.union fk.(l) (seq rhs) in
+        if SS.cardinal s <> SS.cardinal fk.(l) then (fk.(l) <- s; changed := true) end) rules
+  done;
+  let la : (int * int * int, SS.t) Hashtbl.t = Hashtbl.create 97 in
+  let states = Stdlib.List.mapi (fun q its -> (q, Stdlib.List.map (fun ((r, d), _) -> (int_of_nat r, int_of_nat d)) its)) cert in
+  Stdlib.List.iter (fun (q, its) -> Stdlib.List.iter (fun (r, d) -> Hashtbl.replace la (q, r, d) SS.empty) its) states;
+  Stdlib.Array.iteri (fun i _ -> if Hashtbl.mem la (i, nr + i, 0) then Hashtbl.replace la (i, nr + i, 0) (SS.singleton [])) inputs;
+  let total = ref 0 in
+  let add key s =
+    match Hashtbl.find_opt la key with
+    | None -> ()
+    | Some old -> let n = SS.union old s in
+      if SS.cardinal n <> SS.cardinal old then (total := !total + SS.cardinal n - SS.cardinal old; Hashtbl.replace la key n; changed := true) in
+  let goto q x = int_of_z (PTables.goto_state enc (z_of_int q) (z_of_int x)) in
+  changed := true;
+  while !changed && !total <= kc_limit do
+    changed := false;
+    Stdlib.List.iter (fun (q, its) -> Stdlib.List.iter (fun (r, d) ->
+      let l = Hashtbl.find la (q, r, d) in
+      let rhs = arule r in
+      if not (SS.is_empty l) && d < Stdlib.List.length rhs then begin
+        let x = Stdlib.List.nth rhs d in
+        let q' = goto q x in
+        if q' >= 0 then add (q', r, d + 1) l;
+        if x >= t then begin
+          let rec drop n l = if n <= 0 then l else match l with [] -> [] | _ :: r -> drop (n - 1) r in
+          let l' = concat (seq (drop (d + 1) rhs)) l in
+          Stdlib.Array.iteri (fun r' (lhs, _) -> if lhs = x then add (q, r', 0) l') rules
+        end
+      end) its) states
+  done;
+  if !total > kc_limit then None else begin
+    let strs s = Stdlib.List.map (Stdlib.List.map z_of_int) (SS.elements s) in
+    let ftk = Stdlib.List.filter_map (fun x -> if x >= t then Some (z_of_int x, strs fk.(x)) else None) (Stdlib.List.init (ns + 1) (fun x -> x)) in
+    let kann = Stdlib.List.map (fun (q, its) -> Stdlib.List.map (fun (r, d) -> ((nat_of_int r, nat_of_int d), strs (Hashtbl.find la (q, r, d)))) its) states in
+    Some (ftk, kann, !total)
+  end
+
 let () = Reg.register "c07.tables" (fun inp out ->
   match lst inp with
   | [g; _k; tables; batches] ->
@@ -17,6 +81,15 @@ let () = Reg.register "c07.tables" (fun inp out ->
     let (cert, _) = CertGen.gen_cert g (nat_of_int 400) in
     let r = int_of_z (ValidatorK.check_k_report g enc rl rs nstates finals cert) in
     let verdict = ref "ok" in
+    (* the completeness check (ValidatorKC.check_kc, proved: every sentence is accepted) with a k-lookahead certificate *)
+    let kk = get_int _k in
+    let rc = (match gen_kcert g enc cert kk with
+      | None -> -1
+      | Some (ftk, kann, _) -> int_of_z (ValidatorKC.check_kc_report g enc rl rs nstates finals (nat_of_int kk) ftk kann)) in
+    (* rc = -1: certificate too large to build (more than kc_limit lookahead strings): the completeness half is then
+       judged by the sampled runs only *)
+    if rc > 0 then verdict := "bad:lalr-k-tables-fail-completeness-check-clause-" ^ string_of_int rc;
+    if Sys.getenv_opt "C07_KC_TRACE" <> None then Printf.eprintf "C07KC k=%d report=%d\n%!" kk rc;
     Stdlib.List.iter (fun b -> match lst b with
       | [idx; strs] ->
         let i = get_int idx in
